@@ -54,6 +54,10 @@ class Gen:
                 raise Unsupported('call of a computed function at line %d' % node.lineno)
             if name == 'open' and len(node.args) >= 2 and isinstance(node.args[1], ast.Constant) and 'w' in str(node.args[1].value):
                 out.append('SOpenOut')
+            elif (name == 'split' and isinstance(f, ast.Attribute) and len(node.args) == 1 and not node.keywords
+                  and isinstance(node.args[0], ast.Constant) and isinstance(node.args[0].value, str) and node.args[0].value):
+                # <text>.split('<non-empty literal>') cannot raise (the receiver is the text just read from the file)
+                out.append(self.site(name, 'KTotal', node.lineno))
             else:
                 out.append(self.site(name, self.kind(name), node.lineno))
         elif isinstance(node, ast.Subscript) and not isinstance(node.slice, ast.Constant):
